@@ -211,3 +211,259 @@ def present(doc, rng=None, fs_form="list", fs_order="keep", type_order="keep", m
             val = members(val)
         out.append((key, val))
     return ("obj", order(out, top_order))
+
+
+# ------------------------------------------------------------------------------------------------ independent reading
+
+SOFA_T, FS_ARRAY_T, BYTE_ARRAY_T = "uima.cas.Sofa", "uima.cas.FSArray", "uima.cas.ByteArray"
+FLOAT_ARRAYS = ("uima.cas.FloatArray", "uima.cas.DoubleArray")
+PRIM_NAMES = {"uima.cas." + n for n in ("Boolean", "Byte", "Short", "Integer", "Long", "Float", "Double", "String")}
+
+
+def _is_sofa(m):
+    return any(k == "%TYPE" and x == ("str", SOFA_T) for k, x in m)
+
+
+def _mget(m, key):
+    for k, x in m:
+        if k == key:
+            return x
+    return None
+
+
+def closed_problems(doc):
+    """C04's 'closed' clause read off the document alone (no schema, no model): ids distinct; every '@' member, every
+    element of an FSArray, every view member names a feature structure of the document; every %SOFA names a sofa entry
+    that carries the view's name.  Returns a message or None."""
+    es = entries(doc)
+    ids = [i for i, _m in es]
+    if any(not isinstance(i, int) for i in ids):
+        return "a feature structure without an integer id"
+    dup = sorted({i for i in ids if ids.count(i) > 1})
+    if dup:
+        return f"ids written more than once: {dup}"
+    idset = set(ids)
+    sofa_by_id = {i: m for i, m in es if _is_sofa(m)}
+    for i, m in es:
+        t = _mget(m, "%TYPE")
+        tn = t[1] if t and t[0] == "str" else ""
+        if tn == FS_ARRAY_T or tn.endswith("[]"):
+            el = _mget(m, "%ELEMENTS")
+            for e in (el[1] if el and el[0] == "arr" else []):
+                if e[0] == "int" and e[1] not in idset:
+                    return f"element {e[1]} of the FSArray {i} is not in the document"
+                if e[0] not in ("int", "null"):
+                    return f"element {e} of the FSArray {i} is not a reference"
+        else:
+            for k, x in m:
+                if k.startswith("@"):
+                    if x[0] == "int" and x[1] not in idset:
+                        return f"reference {k}={x[1]} of {i} does not resolve"
+                    if k == "@sofa" and x[0] == "int" and x[1] not in sofa_by_id:
+                        return f"@sofa={x[1]} of {i} is not a sofa of the document"
+                    if x[0] not in ("int", "null"):
+                        return f"reference member {k} of {i} holds {x}"
+    views = get(doc, VIEWS)
+    if views is None or views[0] != "obj":
+        return "no %VIEWS object"
+    for name, v in views[1]:
+        sid = get(v, "%SOFA")
+        if not sid or sid[0] != "int" or sid[1] not in sofa_by_id:
+            return f"%SOFA of view {name} does not name a sofa of the document"
+        if _mget(sofa_by_id[sid[1]], "sofaID") != ("str", name):
+            return f"%SOFA of view {name} names the sofa {_mget(sofa_by_id[sid[1]], 'sofaID')}"
+        mem = get(v, "%MEMBERS")
+        if not mem or mem[0] != "arr":
+            return f"view {name} has no %MEMBERS array"
+        for x in mem[1]:
+            if x[0] != "int" or x[1] not in idset or x[1] in sofa_by_id:
+                return f"member {x} of view {name} is not a feature structure of the document"
+    for i, m in sofa_by_id.items():
+        nm = _mget(m, "sofaID")
+        if nm is None or get(views, nm[1]) is None:
+            return f"sofa {i} has no entry in %VIEWS"
+    return None
+
+
+def _u16_to_cp(text, u):
+    """UTF-16 code unit offset -> code point offset in text (a list of code points); other positions pass through."""
+    pos = 0
+    for k, c in enumerate(text):
+        if pos == u:
+            return k
+        pos += 2 if c > 0xFFFF else 1
+    return len(text) if pos == u else u
+
+
+def _special(x):
+    if x[0] == "flt":
+        return ["f", x[1]]
+    if x[0] == "int":
+        return ["i", x[1]]
+    if x[0] == "str":
+        tok = {"NaN": "nan", "Infinity": "inf", "Inf": "inf", "-Infinity": "-inf", "-Inf": "-inf"}.get(x[1])
+        if tok:
+            return ["f", tok]
+    raise ValueError(f"not a float value: {x}")
+
+
+def _prim(x):
+    k = x[0]
+    if k == "null":
+        return None
+    if k in ("bool", "int", "str"):
+        return [{"bool": "b", "int": "i", "str": "s"}[k], x[1]]
+    if k == "flt":
+        return ["f", x[1]]
+    raise ValueError(f"not a primitive value: {x}")
+
+
+def _ref(x):
+    if x[0] == "null":
+        return None
+    if x[0] == "int":
+        return ["ref", x[1]]
+    raise ValueError(f"not a reference: {x}")
+
+
+def py_denote(schema, doc):
+    """The CAS a JSON-CAS document describes, in the shape of scen.canon(cas, "json"): an independent reading of the
+    format (stdlib only; neither cassis nor the Coq model).  schema: name -> {"anc": [...], "feats": [(py, x, range,
+    elem, multi)]} as scen.schema_of computes it.  The `sofa` feature is reported as ["ref", id] (scen.g_cval maps both
+    spellings to CRef)."""
+    import base64
+    es = entries(doc)
+    views = get(doc, VIEWS)
+    out = {"sofas": [], "fs": {}}
+    texts = {}
+    for i, m in es:
+        if not _is_sofa(m):
+            continue
+        name = _mget(m, "sofaID")[1]
+        st = _mget(m, "sofaString")
+        text = None if st is None or st[0] == "null" else [ord(c) for c in st[1]]
+        v = get(views, name)
+        mem = get(v, "%MEMBERS") if v is not None else None
+        arr = _mget(m, "@sofaArray")
+
+        def s_opt(key):
+            x = _mget(m, key)
+            return None if x is None or x[0] == "null" else x[1]
+
+        out["sofas"].append({"id": i, "num": _mget(m, "sofaNum")[1], "name": name, "text": text, "mime": s_opt("mimeType"),
+                             "uri": s_opt("sofaURI"), "arr": None if arr is None or arr[0] == "null" else arr[1],
+                             "members": sorted(x[1] for x in (mem[1] if mem else []))})
+        texts[i] = text
+    out["sofas"].sort(key=lambda s: s["id"])
+
+    def is_prim(t):
+        return any(a in PRIM_NAMES for a in schema.get(t, {"anc": [t]})["anc"])
+
+    for i, m in es:
+        if _is_sofa(m):
+            continue
+        tn = _mget(m, "%TYPE")[1]
+        if tn.endswith("[]"):
+            tn = FS_ARRAY_T
+        if tn not in schema:
+            raise ValueError(f"type {tn} is not declared")
+        if "uima.cas.ArrayBase" in schema[tn]["anc"]:
+            el = _mget(m, "%ELEMENTS")
+            if el is None or el[0] == "null" or el == ("str", "") or el == ("arr", []):
+                vals = []
+            elif tn == BYTE_ARRAY_T:
+                vals = [["i", b] for b in base64.b64decode(el[1], validate=True)]
+            elif tn in FLOAT_ARRAYS:
+                vals = [_special(x) for x in el[1]]
+            elif tn == FS_ARRAY_T:
+                vals = [_ref(x) for x in el[1]]
+            else:
+                vals = [_prim(x) for x in el[1]]
+            out["fs"][i] = {"type": tn, "feats": {"elements": ["list", vals]}}
+            continue
+        feats = {}
+        for _py, x, rng, _el, _multi in schema[tn]["feats"]:
+            if _mget(m, "@" + x) is not None:
+                feats[x] = _ref(_mget(m, "@" + x))
+            elif _mget(m, "#" + x) is not None:
+                feats[x] = _special(_mget(m, "#" + x))
+            elif _mget(m, x) is not None:
+                feats[x] = _prim(_mget(m, x))
+            else:
+                feats[x] = None
+        known = {f[1] for f in schema[tn]["feats"]}
+        for k, _x in m:
+            if not k.startswith("%") and (k[1:] if k[:1] in ("@", "#") else k) not in known:
+                raise ValueError(f"member {k} of {i} is not a feature of {tn}")
+        if "uima.tcas.Annotation" in schema[tn]["anc"]:
+            sid = feats.get("sofa")
+            if not sid or sid[1] not in texts:
+                raise ValueError(f"annotation {i} has no sofa of the document")
+            text = texts[sid[1]]
+            for k in ("begin", "end"):
+                if feats.get(k) and feats[k][0] == "i" and text is not None:
+                    feats[k] = ["i", _u16_to_cp(text, feats[k][1])]
+        out["fs"][i] = {"type": tn, "feats": feats}
+    return out
+
+
+def norm_canon(cc):
+    """scen.canon / py_denote results made comparable: ids as ints, the sofa feature as a plain reference."""
+    def nv(v):
+        if isinstance(v, (list, tuple)) and v and v[0] == "sofa":
+            return ["ref", v[1]]
+        if isinstance(v, (list, tuple)) and v and v[0] == "list":
+            return ["list", [nv(e) for e in v[1]]]
+        return list(v) if isinstance(v, tuple) else v
+    return {"sofas": [dict(s) for s in cc["sofas"]],
+            "fs": {int(i): {"type": d["type"], "feats": {k: nv(v) for k, v in d["feats"].items()}} for i, d in cc["fs"].items()}}
+
+
+def canon_diff(a, b):
+    """first difference between two canonical contents (a: wanted, b: got), or None"""
+    a, b = norm_canon(a), norm_canon(b)
+    if a["sofas"] != b["sofas"]:
+        for x, y in zip(a["sofas"], b["sofas"]):
+            if x != y:
+                return f"sofa {x} vs {y}"
+        return f"sofas {[s['name'] for s in a['sofas']]} vs {[s['name'] for s in b['sofas']]}"
+    if set(a["fs"]) != set(b["fs"]):
+        return f"ids only in the first {sorted(set(a['fs']) - set(b['fs']))} / only in the second {sorted(set(b['fs']) - set(a['fs']))}"
+    for k in sorted(a["fs"]):
+        if a["fs"][k] != b["fs"][k]:
+            fa, fb = a["fs"][k]["feats"], b["fs"][k]["feats"]
+            bad = [f for f in sorted(set(fa) | set(fb)) if fa.get(f) != fb.get(f)]
+            return f"fs {k} ({a['fs'][k]['type']} vs {b['fs'][k]['type']}): " + "; ".join(f"{f}: {fa.get(f)} vs {fb.get(f)}" for f in bad[:3])
+    return None
+
+
+def nulls(doc, how, schema=None):
+    """Null feature values absent or explicit.  how: keep | drop (members of feature structures whose value is null are
+    left out) | explicit (every feature of a non-array, non-sofa structure that has no member gets one with value null:
+    '@name' for a non-primitive range, the plain name otherwise; needs the schema).  Presentation only."""
+    if how == "keep":
+        return doc
+    fs = get(doc, FS)
+    if fs is None:
+        return doc
+
+    def prim(t):
+        return any(a in PRIM_NAMES for a in schema.get(t, {"anc": [t]})["anc"])
+
+    def one(m):
+        if _is_sofa(m):
+            return m
+        if how == "drop":
+            return [(k, x) for k, x in m if k.startswith("%") or x != ("null",)]
+        t = _mget(m, "%TYPE")
+        tn = t[1] if t else None
+        if tn is None or tn.endswith("[]") or tn not in schema or "uima.cas.ArrayBase" in schema[tn]["anc"]:
+            return m
+        have = {(k[1:] if k[:1] in ("@", "#") else k) for k, _x in m}
+        return list(m) + [(x if prim(rng) else "@" + x, ("null",)) for _py, x, rng, _e, _mu in schema[tn]["feats"] if x not in have]
+
+    if fs[0] == "arr":
+        new = ("arr", [("obj", one(e[1])) for e in fs[1]])
+    else:
+        new = ("obj", [(k, ("obj", one(e[1]))) for k, e in fs[1]])
+    return ("obj", [(k, new if k == FS else v) for k, v in doc[1]])
